@@ -1287,9 +1287,9 @@ func (gen *Generator) generateSyntaxQuoteList(arg Sexp) error {
 		if issymbol {
 			if sym.name == "unquote" {
 				//VPrintf("detected unquote with quotebody[1]='%#v'   arg='%#v'\n", quotebody[1], arg)
-				return gen.Generate(quotebody[1])
+				return gen.generateUnquoted(quotebody[1])
 			} else if sym.name == "unquote-splicing" {
-				if err := gen.Generate(quotebody[1]); err != nil {
+				if err := gen.generateUnquoted(quotebody[1]); err != nil {
 					return err
 				}
 				gen.AddInstruction(ExplodeInstr(0))
@@ -1308,6 +1308,20 @@ func (gen *Generator) generateSyntaxQuoteList(arg Sexp) error {
 
 	gen.AddInstruction(SquashInstr(0))
 
+	return nil
+}
+
+// generateUnquoted compiles an unquoted expression so that it leaves exactly
+// one value on the data stack. Forms such as (begin) and (newScope) compile
+// to no instruction at all; their value is nil.
+func (gen *Generator) generateUnquoted(expr Sexp) error {
+	before := len(gen.instructions)
+	if err := gen.Generate(expr); err != nil {
+		return err
+	}
+	if len(gen.instructions) == before {
+		gen.AddInstruction(PushInstr{SexpNull})
+	}
 	return nil
 }
 
